@@ -466,15 +466,19 @@ func LoadContracts(cs *ContractSet, pkgPath, file string) error {
 			case "ghost":
 				// ghost at <callee> name: expr  - records the value of expr (over the call's arguments $0.. and
 				// its result $r / $r0, $r1) in a ghost variable after every matching call; read with ghost(name)
-				m := regexp.MustCompile(`^at\s+(\S+?)\s+([A-Za-z0-9_]+):\s+(.*)$`).FindStringSubmatch(rest)
+				m := regexp.MustCompile(`^at\s+(\S+?)(?:\[#(\d+)\])?\s+([A-Za-z0-9_]+):\s+(.*)$`).FindStringSubmatch(rest)
 				if m == nil {
 					return fail(fmt.Errorf("bad ghost"))
 				}
-				e, err := ParseSpec(m[3])
+				e, err := ParseSpec(m[4])
 				if err != nil {
 					return fail(err)
 				}
-				cur.Ghosts = append(cur.Ghosts, CallAssert{Callee: m[1], Nth: -1, Cl: Clause{Label: m[2], Src: m[3], E: e, Line: l.line}})
+				gn := -1
+				if m[2] != "" {
+					gn, _ = strconv.Atoi(m[2])
+				}
+				cur.Ghosts = append(cur.Ghosts, CallAssert{Callee: m[1], Nth: gn, Cl: Clause{Label: m[3], Src: m[4], E: e, Line: l.line}})
 			case "lemma":
 				// lemma at <where>: name(args)
 				m := regexp.MustCompile(`^at\s+(.*?):\s+([A-Za-z0-9_]+)\((.*)\)$`).FindStringSubmatch(rest)
